@@ -4,6 +4,8 @@ import (
 	"flag"
 	"fmt"
 	"os"
+	"path/filepath"
+	"regexp"
 	"sort"
 	"strings"
 	"time"
@@ -44,6 +46,24 @@ func main() {
 				}
 			}
 		}
+	case "sync":
+		// copy the contract files (and the generated prelude) into the repository as verif-tagged, add-only hooks
+		n := 0
+		filepath.Walk(*contracts, func(p string, fi os.FileInfo, err error) error {
+			if err != nil || fi.IsDir() || !strings.HasSuffix(p, "_verif.go") {
+				return nil
+			}
+			rel, _ := filepath.Rel(*contracts, p)
+			dst := filepath.Join(*repo, rel)
+			b, _ := os.ReadFile(p)
+			os.WriteFile(dst, b, 0o644)
+			n++
+			if m := regexp.MustCompile(`(?m)^package (\w+)`).FindSubmatch(b); m != nil {
+				os.WriteFile(filepath.Join(filepath.Dir(dst), "zz_prelude_verif.go"), []byte(fmt.Sprintf(preludeSrc, string(m[1]))), 0o644)
+			}
+			return nil
+		})
+		fmt.Println("synced", n, "contract files")
 	case "verify":
 		w, err := loadWorld(*repo, *contracts)
 		if err != nil {
